@@ -27,8 +27,8 @@ def op_npseed(ctx, seed):
 def op_like(ctx, name, cls, **kw):
     from esr.fitting import likelihood as L
     dd = kw.get('data_dir')
-    if dd is not None:
-        dd = ctx.scratch + '/' + dd
+    if dd is not None and not kw.get('relative'):
+        dd = ctx.scratch + '/' + dd           # 'relative': pass the directory as given, relative to the current directory
     if cls == 'Gauss':
         obj = L.GaussLikelihood(kw['data_file'], kw['run_name'], data_dir=dd, fn_set=kw.get('fn_set', 'core_maths'))
     elif cls == 'Poisson':
